@@ -82,6 +82,8 @@ def discharge(P, extra_hyps, goal, timeout_ms):
     g = z3.simplify(goal)
     if z3.is_true(g):
         return "proved", 0.0, None, "simplifier"
+    if len(P.axioms) + len(P.assumes) + len(P.pc) > SLICE_THRESHOLD:
+        return _discharge_sliced(P, extra_hyps, goal, timeout_ms, t0)
     s = P.solver
     s.push()
     try:
@@ -120,6 +122,78 @@ def discharge(P, extra_hyps, goal, timeout_ms):
 
 
 REFINE_ROUNDS = 25
+SLICE_THRESHOLD = 400
+_SYMS = {}
+
+
+def _syms(f):
+    k = f.get_id()
+    r = _SYMS.get(k)
+    if r is None:
+        r = _SYMS[k] = frozenset(ct.free_syms(f))
+    return r
+
+
+def cone_of_influence(hyps, seeds):
+    """Hypotheses connected to the goal through shared uninterpreted symbols (a sound
+    weakening of the hypothesis set: fewer hypotheses can only lose proofs, never add any)."""
+    want = set()
+    for f in seeds:
+        want |= _syms(f)
+    rest = list(hyps)
+    picked = []
+    changed = True
+    while changed:
+        changed = False
+        keep = []
+        for h in rest:
+            sy = _syms(h)
+            if not sy or (sy & want):
+                picked.append(h)
+                if not sy <= want:
+                    want |= sy
+                    changed = True
+            else:
+                keep.append(h)
+        rest = keep
+    return picked
+
+
+def _discharge_sliced(P, extra_hyps, goal, timeout_ms, t0):
+    hyps = cone_of_influence(P.hyps(), [goal] + list(extra_hyps))
+    s = z3.Solver()
+    s.set("timeout", timeout_ms)
+    s.add(*hyps)
+    s.add(*extra_hyps)
+    s.add(z3.Not(goal))
+    r = s.check()
+    rounds = 0
+    while r == z3.sat and rounds < REFINE_ROUNDS:
+        lem = _product_lemmas(P, s.model())
+        if not lem:
+            break
+        rounds += 1
+        s.add(*lem)
+        r = s.check()
+    if r == z3.unsat:
+        return "proved", time.time() - t0, None, "z3/sliced"
+    if r == z3.sat:
+        # a countermodel of the slice is a countermodel only if the full hypothesis set agrees
+        s2 = z3.Solver()
+        s2.set("timeout", timeout_ms)
+        s2.add(*P.hyps())
+        s2.add(*extra_hyps)
+        s2.add(z3.Not(goal))
+        r2 = s2.check()
+        if r2 == z3.unsat:
+            return "proved", time.time() - t0, None, "z3"
+        if r2 == z3.sat and not _product_lemmas(P, s2.model()):
+            return "refuted", time.time() - t0, model_dict(s2.model()), "z3"
+        return "unknown", time.time() - t0, None, "z3 (sliced countermodel not confirmed on the full hypothesis set)"
+    v = _cvc5(s.to_smt2(), timeout_ms)
+    if v == "unsat":
+        return "proved", time.time() - t0, None, "cvc5/sliced"
+    return "unknown", time.time() - t0, None, "z3+cvc5"
 
 
 def _product_lemmas(P, m):
